@@ -635,6 +635,15 @@ class ScalarType(GraphQLLeafType, NamedType):
                     return self._parse_literal(node, variables or {})
                 return self.parse(node.value)
             except AttributeError:
+                # List, object and null literals (and variables) have no
+                # ``value``: without a dedicated literal parser they cannot
+                # be represented by this type.
+                if not hasattr(node, "value"):
+                    raise ScalarParsingError(
+                        "%s cannot represent %s"
+                        % (self.name, node.__class__.__name__),
+                        [node],
+                    )
                 return self.parse(node.value)
         except (ValueError, TypeError) as err:
             raise ScalarParsingError(str(err), [node]) from err
